@@ -52,8 +52,119 @@ def build_verus(run):
         f.body_prologue("proof { lemma_bounds(src@, src@.len() as int); }")
         unit.add(f)
     unit.raw("} // verus!\n")
+    build_update(run, unit)
     run.sample({"function": "els::util::pos_to_byte_index", "ensures": "for every document (< 1 Gi chars) and position: the byte offset of the first character k with line_of(k) == line and (col_of(k) >= character in UTF-16 units, or k is the end of its line - LF or the CR of a CRLF), else the end of the document; always a character boundary <= len; the slice src[index+1..] cannot panic; counters do not overflow; terminates"})
     return unit
+
+U_SPEC = """requires
+        // a notification that follows the LSP specification: every change is incremental (has a range) and no range ends before it starts
+        forall|i: int| 0 <= i < content_changes@.len() ==> ev_ok(#[trigger] content_changes@[i]),
+        // every intermediate document stays below 1 Gi characters (precondition of pos_to_byte_index)
+        forall|n: int| 0 <= n <= content_changes@.len() ==> (#[trigger] apply_all(code0@, content_changes@, n)).len() <= 0x3FFF_FFFF,
+    ensures
+        // the server's copy is the client's copy: the changes applied in order, each to the document as left by the previous ones
+        res@ == apply_all(code0@, content_changes@, content_changes@.len() as int),"""
+
+U_LOOP = """invariant
+            verif_i <= verif_cs@.len(), verif_cs@ == content_changes@,
+            %(code)s@ == apply_all(code0@, content_changes@, verif_i as int),
+            forall|i: int| 0 <= i < content_changes@.len() ==> ev_ok(#[trigger] content_changes@[i]),
+            forall|n: int| 0 <= n <= content_changes@.len() ==> (#[trigger] apply_all(code0@, content_changes@, n)).len() <= 0x3FFF_FFFF,
+        decreases verif_cs@.len() - verif_i,"""
+
+
+def build_update(run, unit):
+    """Second verified function: the change loop of FileCache::incremental_update (real text; the lookup of the entry, the version guard,
+    the VFS update and the re-lexing around it are sliced away, R2s), checked against the CONTRACT of pos_to_byte_index."""
+    from vlib.extract import make_mask, match_close
+    fc = Source(run.repo, 'crates/els/file_cache.rs')
+    unit.raw_file(os.path.join(HERE, 'prelude_update.rs'))
+    unit.raw("verus! {\n")
+    for probe in (False, True):
+        f = Snippet(fc.fn('incremental_update', impl=r'FileCache'), 'vacuity-probe incremental_update[change loop]' if probe else 'FileCache::incremental_update[change loop]')
+        f.rw('R5', r'(pub(\(crate\))?\s+)?fn incremental_update\(&self, params: DidChangeTextDocumentParams\)', 'fn incremental_update(code0: &String, content_changes: Vec<TextDocumentContentChangeEvent>) -> String', expect=1)
+        # R2s: slice - everything before the working copy is taken and everything after the loop is dropped; the value stored is returned
+        mask = make_mask(f.text)
+        m0 = re.search(r'let mut (\w+) = entry\.code\.clone\(\);', mask)
+        if not m0:
+            raise Undecided("incremental_update: no `let mut <code> = entry.code.clone();`")
+        code = m0.group(1)
+        ob = mask.index('{')
+        pre = f.text[ob + 1:m0.start()]
+        if not re.search(r'entry\.ver >= params\.text_document\.version', pre) or 'get_mut(&uri)' not in pre:
+            raise Undecided("incremental_update: the sliced-away prefix is no longer the entry lookup and the version guard")
+        lm = re.search(r'\bfor (\w+) in params\.content_changes \{', mask)
+        if not lm or lm.start() < m0.end() or mask[m0.end():lm.start()].strip():
+            raise Undecided("incremental_update: the loop over params.content_changes does not directly follow the working copy")
+        change = lm.group(1)
+        lc = match_close(mask, lm.end() - 1)
+        fe = match_close(mask, ob)
+        suf = f.text[lc + 1:fe]
+        smask = make_mask(suf)
+        uses = [m for m in re.finditer(r'(?<![.\w])%s\b' % code, smask)]
+        stores = [m for m in uses if re.search(r'\bentry\.code = $', smask[:m.start()]) and smask[m.end():].lstrip().startswith(';')]
+        clones = [m for m in uses if smask[m.end():].startswith('.clone()')]
+        if len(stores) != 1 or len(stores) + len(clones) != len(uses) or not re.search(r'VFS\.update\([^;]*\b%s\.clone\(\)\)' % code, smask):
+            raise Undecided("incremental_update: after the loop the working copy is no longer stored unchanged (expected: entry.code = code; once, every other use a code.clone(), VFS.update(.., code.clone()))")
+        f.replace_range('R2s', lc + 1, fe, '\n        %s\n    ' % code, 'slice: after the change loop (VFS.update(path, code.clone()), re-lexing of code.clone(), entry.code = code, entry.ver, entry.token_stream) dropped; the working copy is returned')
+        f.replace_range('R2s', ob + 1, m0.start(), '\n        ', 'slice: entry lookup (files.borrow_mut().get_mut(&uri), early return) and version guard (entry.ver >= version: log and return) dropped')
+        f.rw('R5', r'\bentry\.code\.clone\(\)', 'w_clone(code0)', expect=1)
+        f.rw('R11', r'\bfor %s in params\.content_changes \{' % change, 'let verif_cs = content_changes;\n        let mut verif_i: usize = 0;\n        while verif_i < verif_cs.len() {\n            let %s = &verif_cs[verif_i]; verif_i = verif_i + 1;' % change, expect=1)
+        f.rw('R5', r'\bentry\.code\b(?!\s*=[^=])', 'code0', expect='*')   # the entry's text at entry of the function is the parameter
+        f.rw('R4', r'\butil::pos_to_byte_index\(&(\w+), ', r'pos_to_byte_index(\1.as_str(), ', expect='*')
+        mr = re.search(r'Some\((\w+)\) = %s\.range\b' % change, make_mask(f.text))
+        mp = re.search(r'\b%s\.replace_range\((\w+)\.\.(\w+), &%s\.text\);' % (code, change), make_mask(f.text))
+        if not mr or not mp:
+            raise Undecided("incremental_update: the change loop no longer has the shape `Some(range) = change.range ... code.replace_range(a..b, &change.text);` (a, b identifiers)")
+        rng, a, b = mr.group(1), mp.group(1), mp.group(2)
+        f.rw('R4', r'\b%s\.replace_range\((\w+)\.\.(\w+), &%s\.text\);' % (code, change),
+             r'w_replace_range(&mut %s, \1, \2, &%s.text, Ghost(char_idx(verif_doc, %s.start)), Ghost(char_idx(verif_doc, %s.end)));' % (code, change, rng, rng), expect=1)
+        if probe:
+            f.rename_fn('incremental_update__changes__vacuity_probe')
+            run.extra.setdefault('vacuity_probe_labels', []).append(f.label)
+        else:
+            f.rename_fn('incremental_update__changes')
+        f.contract(U_SPEC.split('ensures')[0] + 'ensures false,' if probe else U_SPEC)
+        f.loop_spec(0, U_LOOP % {"code": code})
+        f.insert_at(r'\bpos_to_byte_index\(', "            proof { assert(apply_all(code0@, content_changes@, verif_i as int - 1).len() <= 0x3FFF_FFFF); }", where='before')
+        f.insert_at(r'\bw_replace_range\(', """            let ghost verif_doc = %(code)s@;
+            proof {
+                // what pos_to_byte_index returned (its contract) is the byte offset of the character the LSP position denotes
+                lemma_index_is(verif_doc, %(rng)s.start, %(a)s); lemma_index_is(verif_doc, %(rng)s.end, %(b)s);
+                assert(content_changes@[verif_i as int - 1].range == Some(%(rng)s));
+                lemma_idx_mono(verif_doc, %(rng)s.start, %(rng)s.end);   // start <= end: String::replace_range cannot panic
+            }""" % {"code": code, "rng": rng, "a": a, "b": b}, where='before')
+        unit.add(f)
+    unit.raw("} // verus!\n")
+    run.sample({"function": "FileCache::incremental_update (change loop)", "ensures": "for every document and every notification whose changes all carry a range with start <= end: the stored text == the changes applied in order, each to the document as left by the previous ones, a change replacing the characters between the two LSP positions (UTF-16 columns, past end of line = end of line); String::replace_range is always handed start <= end on character boundaries (no panic); terminates"})
+
+
+def c28b(run):
+    """The run-time-checked contract on the real FileCache::incremental_update (guarded hook); run once per check."""
+    import json, subprocess, time
+    from vlib import replay as rp
+    if getattr(run, "_c28b", None) is not None:
+        return run._c28b
+    binary = rp.build(run, 'c28b', deps=('els',), cfg_hook=True)
+    n = 2 if run.tier != 'thorough' else 3
+    t0 = time.time()
+    p = subprocess.run([binary, str(n)], capture_output=True, text=True, timeout=7200)
+    try:
+        js = json.loads(p.stdout.strip().split('\n')[-1])
+    except Exception:
+        raise Undecided("c28b exploration produced no result: " + p.stderr[-300:])
+    run.solver_time_s += time.time() - t0
+    js["_binary"] = binary
+    js["_n"] = n
+    run._c28b = js
+    return js
+
+
+def update_cex(js):
+    return {"found": True, "how": "exhaustive enumeration of didChange notifications delivered to the real FileCache::incremental_update through the guarded hook; the client side is an independent LSP reference editor",
+            "input": js["violation"].split(': server copy')[0].split(': the server panics')[0], "real_result": js["violation"], "oracle": "LSP: each change of a notification applies to the document as modified by the previous ones; UTF-16 columns; past end of line clamps",
+            "verdict": "the server's copy of the document differs from the client's (or the server panics)", "replay_cmd": "%s %d" % (js["_binary"], js["_n"])}
+
 
 UTIL = 'crates/els/util.rs'
 MAXLEN = 4
@@ -123,7 +234,14 @@ def run(run, replay=None):
     run.fallbacks.append(("pos_to_byte_index", lambda: _cex.find(run, {})))
     vunit = build_verus(run)
     vres = vunit.run(rlimit=60)
-    run.add_verus(vunit, vres, cex_finder=lambda f: _cex.find(run, f), expect_fail=tuple(run.extra.get('vacuity_probe_labels', ())))
+    def finder(f):
+        if 'incremental_update' in f.get("key", ''):
+            js = c28b(run)
+            if js.get("violation"):
+                return update_cex(js)
+            return {"found": False, "note": "no notification within the bound of the run-time-checked contract (%d delivered) makes the server's copy differ" % js["notifications"]}
+        return _cex.find(run, f)
+    run.add_verus(vunit, vres, cex_finder=finder, expect_fail=tuple(run.extra.get('vacuity_probe_labels', ())))
     unit = build(run)
     h = 'h_pos_to_byte_index'
     res = unit.run([h], jobs=1, timeout_s=1500 if run.tier != 'thorough' else 6000)
@@ -155,25 +273,15 @@ def run(run, replay=None):
     else:
         run.undecided.append("kani %s: %s %s" % (h, r.status, r.log_tail[-400:].replace('\n', ' ') if r.status == 'ERROR' else ''))
     # ---- second bounded stand-in: the document copy after didChange notifications (run-time-checked contract) -------
-    import json, subprocess, time
-    from vlib import replay as rp
     from vlib.extract import Source as _S
     run.functions.append(_S(run.repo, 'crates/els/file_cache.rs').fn('incremental_update', impl=r'FileCache').describe())
-    binary = rp.build(run, 'c28b', deps=('els',), cfg_hook=True)
     n = 2 if run.tier != 'thorough' else 3
-    t0 = time.time()
-    p = subprocess.run([binary, str(n)], capture_output=True, text=True, timeout=7200)
-    try:
-        js = json.loads(p.stdout.strip().split('\n')[-1])
-    except Exception:
-        raise Undecided("c28b exploration produced no result: " + p.stderr[-300:])
-    run.solver_time_s += time.time() - t0
+    js = c28b(run)
+    binary = js["_binary"]
     b2 = "every document of up to %d characters over {a, e-acute, an astral character, LF}; one didChange notification with one change (all) or two changes (all pairs for documents up to 1 character, every 7th pair otherwise); ranges with line <= 2, character <= 3; new text one of '', 'x', LF" % n
     if js["violation"]:
         run.add_obligation("incremental_update|contract|server copy == client copy", 'runtime-contract', False, detail={"msg": js["violation"]},
-                           cex={"found": True, "how": "exhaustive enumeration of didChange notifications delivered to the real FileCache::incremental_update through the guarded hook; the client side is an independent LSP reference editor",
-                                "input": js["violation"].split(': server copy')[0].split(': the server panics')[0], "real_result": js["violation"], "oracle": "LSP: each change of a notification applies to the document as modified by the previous ones; UTF-16 columns; past end of line clamps",
-                                "verdict": "the server's copy of the document differs from the client's (or the server panics)", "replay_cmd": "%s %d" % (binary, n)})
+                           cex=update_cex(js))
     else:
         run.cmds.append("%s %d" % (binary, n))
         run.extra.setdefault("bounded_stand_ins(not counted as proved)", []).append({"what": "FileCache::incremental_update: server copy == client copy (run-time-checked contract through the guarded hook)", "bound": b2, "status": "passed"})
@@ -182,4 +290,4 @@ def run(run, replay=None):
                       "samples_notifications": js["samples"]})
     run.bounded_note = bound + " || " + b2
     run.assumptions.append("pos_to_byte_index (proved): str::char_indices, str::len, str slicing + starts_with and char::len_utf16 carry assumed std contracts over the characters of the document (Verus has no byte-level str reasoning); documents below 2^30 characters. The same function is cross-checked, BOUNDED, by Kani against an independent byte-level LSP reference (which exercises the real UTF-8 decoding).")
-    run.assumptions.append("FileCache::incremental_update: BOUNDED run-time-checked contract only (documents up to the stated size, one notification); histories of several notifications, full-document sync, String::replace_range and the rest of the server loop are not carried by any proof.")
+    run.assumptions.append("FileCache::incremental_update (change loop proved): the loop is sliced out of the function (R2s: the entry lookup, the version guard, VFS.update, the re-lexing and the stores into the entry are dropped; textual anchors check that the working copy is what is stored); the lsp_types shapes (Position, Range, TextDocumentContentChangeEvent {range, range_length, text}) are restated in the prelude; String::clone, String::as_str and String::replace_range carry assumed std contracts over the characters; notifications whose changes all carry a range with start <= end (a range-less, i.e. full-document, change is skipped by the code and is outside the claim); every intermediate document below 2^30 characters. The whole function (with lock, VFS and lexer) is exercised only by the BOUNDED run-time-checked contract; histories of several notifications and the rest of the server loop are not carried by any proof.")
